@@ -91,6 +91,7 @@ def main(tier):
     models.seed_copies(P, rep)
     models.tag_registry(P, rep)
     sib.model_families(P, rep, rule="SIB.composition", kinds=("Composition",), floor=3)
+    sib.model_families(P, rep, rule="SIB.temperature", kinds=("Temperature",), floor=5)     # copies of one model treat the incoming value alike
     rep.explanation = ("Fold order (single forward loop, list built in file order, no other writer), every feature write control-dependent on "
                        "the same extent test that depends only on geometry (with the effect analysis: a non-covering feature has no "
                        "influence at all), operation algebra and string mapping, every model honours its operation with a new value "
